@@ -507,8 +507,19 @@ inductive NextRes
   | err (s : SubState)
   | ev (st : Step) (c : Client)
 
-/-- one iteration of the loop of `subscribeOnce` -/
-def next (y : Sys) (id : Nat) : Sys × NextRes :=
+/-- `handle` with the duplicate-event guard of internal/storage/inmem/watch.go (`Index ≤ last ⇒
+    skip`) applied where the materializer would call `updateView` for a streamed event -/
+def handleG (m : Mat) (st : Step) : Mat :=
+  match st with
+  | .item it =>
+      (match m.h with
+       | .stream => if it.idx ≤ m.index then m else handle m st
+       | .resume => if it.idx ≤ m.index then m else handle m st
+       | _ => handle m st)
+  | _ => handle m st
+
+/-- one iteration of the loop of `subscribeOnce`, for a given handler step function -/
+def nextWith (hd : Mat → Step → Mat) (y : Sys) (id : Nat) : Sys × NextRes :=
   match getClient y id with
   | none => (y, .nosub)
   | some c =>
@@ -523,12 +534,18 @@ def next (y : Sys) (id : Nat) : Sys × NextRes :=
       match c.inbox with
       | [] => (y, .block)
       | st :: rest =>
-          let c1 := { c with inbox := rest, m := handle c.m st }
+          let c1 := { c with inbox := rest, m := hd c.m st }
           let c2 := match stepIdx st with
             | some i => { c1 with lastDelivered := i, mono := c1.mono && decide (c.lastDelivered ≤ i),
                                   sidx := (match st with | .eos j _ => j | _ => c1.sidx) }
             | none => c1
           (setClient y c2, .ev st c2)
+
+/-- one iteration of the loop of `subscribeOnce` (the code as it is) -/
+def next (y : Sys) (id : Nat) : Sys × NextRes := nextWith handle y id
+
+/-- the same with the index guard in the materializer -/
+def nextG (y : Sys) (id : Nat) : Sys × NextRes := nextWith handleG y id
 
 /-- `Subscription.Unsubscribe` (+ `freeBuf`) -/
 def unsub (y : Sys) (id : Nat) : Sys :=
@@ -564,5 +581,12 @@ def step (y : Sys) : Act → Sys
   | .restore c => restore y c
 
 def run (y : Sys) (acts : List Act) : Sys := acts.foldl step y
+
+/-- the system with the index guard in every materializer -/
+def stepG (y : Sys) : Act → Sys
+  | .next id => (nextG y id).1
+  | a => step y a
+
+def runG (y : Sys) (acts : List Act) : Sys := acts.foldl stepG y
 
 end CV.Stream
